@@ -1304,6 +1304,10 @@ impl Check for C10 {
             "string/empty",
         ]
     }
+    fn fuzz_families(&self, _tier: Tier) -> Vec<(&'static str, u64)> {
+        // libFuzzer runs per job (16 jobs), sized from the measured speed of the instrumented build
+        vec![("values", 200000)]
+    }
     fn families(&self, tier: Tier) -> Vec<Family<'_>> {
         let nb = boundary_candidates().len() as u64;
         vec![
